@@ -448,7 +448,14 @@ func (r *Runner) assignVal(name string, prev expand.Variable, as *syntax.Assign,
 	if valType == "-A" {
 		amap := make(map[string]string, len(elems))
 		for _, elem := range elems {
-			k := r.literal(elem.Index.(*syntax.Word))
+			w, ok := elem.Index.(*syntax.Word)
+			if !ok {
+				// A missing subscript, or one which is not a single word such as [1+2].
+				r.errf("%s: bad array subscript\n", name)
+				r.exit.code = 1
+				continue
+			}
+			k := r.literal(w)
 			amap[k] = r.literal(elem.Value)
 		}
 		if !as.Append {
